@@ -266,6 +266,9 @@ class World:
                 import gzip
                 with gzip.open(cf, "rb") as fh:
                     out.append(([proj, DOTSIG, CACHEFN], "cache", typed(json.loads(fh.read().decode()))))
+        for sp in self.strays():
+            comps = [c for c in sp.split(os.sep) if c != "."]
+            out.append((comps, "dir" if os.path.isdir(os.path.join(self.root, sp)) else "file", ""))
         out.sort(key=lambda e: (e[0], e[1]))
         return out
 
